@@ -114,13 +114,15 @@ def make_args(r, bam, dd, contigs, recs):
              blacklist=None, r1only=False, r2only=False, filterMP=False, splitFeatures=False, featureDelimiter=',', feature_delimiter=',',
              noNames=False, keepOverBounds=False, bulk=False)
     mode = r.choice(['joined1', 'joined1', 'joined2', 'single1', 'single2'])
-    feats = {'joined1': [r.choice(['reference_name', 'chrom', 'XF'])], 'joined2': r.choice([['reference_name', 'XF'], ['XF', 'DA'], ['chrom', 'DA']]),
-             'single1': [r.choice(['XF', 'reference_name'])], 'single2': ['XF', 'DA']}[mode]
+    # RC and NM are numeric tags whose value is often 0 (a present but falsy value is a value, not a missing tag)
+    feats = {'joined1': [r.choice(['reference_name', 'chrom', 'XF', 'RC'])],
+             'joined2': r.choice([['reference_name', 'XF'], ['XF', 'DA'], ['chrom', 'DA'], ['reference_name', 'RC'], ['NM', 'XF']]),
+             'single1': [r.choice(['XF', 'reference_name', 'RC'])], 'single2': r.choice([['XF', 'DA'], ['XF', 'NM']])}[mode]
     if mode.startswith('joined'):
         a['joinedFeatureTags'] = ','.join(feats)
     else:
         a['featureTags'] = ','.join(feats)
-    a['sampleTags'] = r.choice(['SM', 'SM', 'SM,DA'])
+    a['sampleTags'] = r.choice(['SM', 'SM', 'SM', 'SM,DA', 'SM,RC'])
     for opt, p in (('dedup', .4), ('proper_pairs_only', .2), ('no_indels', .3), ('no_softclips', .3), ('filterXA', .3), ('filterMP', .25),
                    ('divideMultimapping', .35), ('doNotDivideFragments', .35), ('r1only', .15)):
         a[opt] = r.random() < p
